@@ -99,7 +99,7 @@ PROPS = {
                         "C13.crc_changes", "C13.fixed_up_substitution.char", "C13.fixed_up_substitution_is_dropped", "msmart.frame.Frame.validate", "msmart.frame.Frame.checksum", "msmart.crc8.calculate", "crc8.table", "crc8.step_range",
                         CMD + "Response.validate", CMD + "Response.construct",
                         AC + "._send_command_get_responses", AC + ".refresh#no_valid_response",
-                        AC + "._update_state#other", AC + "._update_state#props"] + [DEVB + ".online", DEVB + ".supported"],
+                        AC + "._update_state#other", AC + "._update_state#props"] + [DEVB + ".online", DEVB + ".supported", DEVB + ".to_dict", AC + ".to_dict"],
             "level": "proof"},
     "C14": {"targets": [CMD + "Response.construct", CMD + "StateResponse.__init__", CMD + "CapabilitiesResponse.__init__",
                         CMD + "CapabilitiesResponse._parse_capabilities", CMD + "PropertiesResponse.__init__",
